@@ -496,9 +496,12 @@ template<class GraphImpl>
 void TreeGraphImpl<GraphImpl>::setOutGroup(Graph::NodeId newOutGroup)
 {
   mustBeRooted_();
-  deleteNode(GraphImpl::getRoot());
+  mustBeValid_();
+  // the outgroup must have a father (checked before anything is modified)
+  Graph::NodeId father = getFatherOfNode(newOutGroup);
 
-  Graph::NodeId newRoot = GraphImpl::createNodeFromEdge(getEdge(getFatherOfNode(newOutGroup), newOutGroup));
+  // the new root is made between the outgroup and its father
+  Graph::NodeId newRoot = GraphImpl::createNodeOnEdge(GraphImpl::getEdge(father, newOutGroup));
   rootAt(newRoot);
 }
 
